@@ -54,6 +54,72 @@ def la_spec(hist, table=None):
     return len(hist), arch
 
 
+def la_spec_lenient(hist, table):
+    """Documented rules, the caller going on after rejections: -> (accepted flags, listing)"""
+    arch, flags = [], []
+    for s in hist:
+        c = table[s]
+        if c[0] == "peek":
+            continue
+        pending = [x for x in arch if not x[1]]
+        ok = True
+        if c[0] == "with_layer":
+            pass
+        elif c[0] == "layer":
+            if pending or any(x[0] == c[1] for x in arch):
+                ok = False
+            else:
+                arch.append([c[1], []])
+        else:
+            if len(pending) != 1:
+                ok = False
+            elif c[0] == "regex":
+                pending[0][1] = [c[1]]
+            else:
+                mods = [c[1]] if c[0] == "str" else list(c[1])
+                if set(mods) & {m for x in arch for m in x[1]}:
+                    ok = False
+                else:
+                    pending[0][1] = mods
+        flags.append(ok)
+    return flags, arch
+
+
+def _lenient_job(args):
+    """histories continued after rejected calls: which calls are accepted and what the object defines at the end,
+    implementation vs documented rules vs model (fn 37)"""
+    hists, tname = args
+    T = TABLES[tname]
+    enc = rules.Enc()
+    lenc = layers.LEnc(enc)
+    wire = [37, [[lenc.la_call(T[s]) for s in h if s != "PK"] for h in hists]]
+    res = common.model_run([wire])[0]
+    viol, disag = [], []
+    nontriv = 0
+    for h, m in zip(hists, res):
+        flags, fams, listing = layers.run_la_impl_lenient([T[s] for s in h])
+        sflags, sarch = la_spec_lenient(h, T)
+        mflags, march = [bool(x) for x in m[0]], lenc.dec_larch(m[1])
+        case = dict(la_history=list(h), names=tname, lenient=True, calls=[list(T[x]) for x in h], impl_accepted=flags, impl_errors=fams, impl_listing=listing,
+                    documented_accepted=sflags, documented_listing=[[a, b] for a, b in sarch])
+        if flags != sflags:
+            i = next(k for k, (x, y) in enumerate(zip(flags, sflags)) if x != y)
+            viol.append((case, f"LayeredArchitecture history {list(h)} (caller goes on after rejections): call #{i} is {'accepted' if flags[i] else 'rejected'}, "
+                               f"the documented rules {'accept' if sflags[i] else 'reject'} it", {"kind": "la_history_lenient"}))
+            continue
+        if any(f != "ConfigError" for f in fams):
+            viol.append((case, f"LayeredArchitecture history {list(h)}: a rejected call raised {[f for f in fams if f != 'ConfigError'][0]}, not a configuration error", {"kind": "la_history_lenient"}))
+            continue
+        if [(a, list(b)) for a, b in listing] != [(a, list(b)) for a, b in sarch]:
+            viol.append((case, f"LayeredArchitecture history {list(h)} (caller goes on after rejections): the object defines {listing}, the accepted calls supplied {sarch}", {"kind": "la_listing_lenient"}))
+            continue
+        if mflags != flags or [(a, list(b)) for a, b in march] != [(a, list(b)) for a, b in listing]:
+            disag.append((case, f"model and implementation differ on the lenient LayeredArchitecture history {list(h)}"))
+        if not all(flags) and any(flags[i] for i in range(len(flags)) if not all(flags[:i])):
+            nontriv += 1          # something was accepted after a rejection
+    return dict(n=len(hists), nontrivial=nontriv, stats={"lenient_histories": len(hists)}, violations=viol, disagreements=disag, pairs=[], samples=[])
+
+
 def _job(args):
     hists, tname = args
     ALL = TABLES[tname]
@@ -117,6 +183,9 @@ def run(ctx: Ctx):
     jobs += [(awkward[i:i + chunk], "awkward") for i in range(0, len(awkward), chunk)]
     with Pool(NCPU) as pool:
         rs = pool.map(_job, jobs, chunksize=1)
+        # the caller catches rejections and goes on: all histories up to length 5 (quick: 4) with at least ... any, plus a sample of the random ones
+        len_h = [h for h in hists if len(h) <= (4 if ctx.quick else 5)] + hists[-3000:]
+        rs += pool.map(_lenient_job, [(len_h[i:i + chunk], "plain") for i in range(0, len(len_h), chunk)] + [(len_h[-3000:], "awkward")], chunksize=1)
     for r in rs:
         rules.merge_into(ctx, r)
     # LayerRule part: call-chain prefixes (shared with C13's layer histories): architecture first, exactly one subject layer
@@ -129,7 +198,7 @@ def run(ctx: Ctx):
     ctx.stat("la_histories", len(hists))
     ctx.rule = (f"LayeredArchitecture: all call sequences of length <= {maxlen} over 10 symbols (three layer names, two module names as str / list / two-element list, a regex, with_layer), "
                 "exhaustive, plus random longer ones over 15 symbols (an observation of the half-defined architecture - a LayerRule based on it, layer_mapping and str read - inserted anywhere, third layer, name containing another name's characters, empty list, duplicate inside one list); "
-                "per history: index of the first rejected call, its error family, and str(architecture) parsed back, compared with the documented rules and with the model; "
+                "the same histories with the caller going on after every rejected call (accepted flags and final definition, all histories up to length 4 / 5 and the random ones); per history: index of the first rejected call, its error family, and str(architecture) parsed back, compared with the documented rules and with the model; "
                 "LayerRule: all chains up to length 4 over 11 symbols + random and mutated chains (architecture first, exactly one subject layer); "
                 "non-trivial = fully accepted histories defining at least one layer")
 
